@@ -358,6 +358,8 @@ def rand_ranges(rng, c, disjoint=False, allow_last=True, focus=None):
             b = c.npix
             a = max(a, c.npix - 3 * c.nfine)
         elif r < 0.5:
+            if rng.random() < 0.2:
+                a = c.npix                                              # … at the very end of the sphere
             b = a                                                       # empty row
         else:
             b = min(c.npix, a + rng.randint(1, max(1, span * c.nfine + c.nfine // 2 + 1)))
@@ -382,8 +384,14 @@ def updr_line(rng, c, path=None, focus=None):
     ops = c.ops()
     op = rng.choice(ops)
     path = path or rng.choice(['slice', 'expand', 'thr'])
-    need_disjoint = (op == 'replace') or (op == 'add' and not c.zero_sentinel())
+    need_disjoint = (op == 'replace')
     rows = rand_ranges(rng, c, disjoint=need_disjoint, focus=focus)
+    if op == 'add' and c.kind == 'plain' and c.is_int and not c.zero_sentinel() and c.sentinel != 'default' \
+            and rows and rng.random() < 0.3:
+        # overlapping rows whose running sum passes through the sentinel (unset cells count as 0: 0 + s = s)
+        rows = rows[:1] * rng.choice([2, 3])
+        rtxt = ','.join("%d:%d" % ab for ab in rows)
+        return "updr %s op=add ranges=%s val=%s path=%s" % (c.name, rtxt, c.sentinel, path if path != 'thr' else 'slice')
     rtxt = ','.join("%d:%d" % ab for ab in rows) or '_'
     if path == 'thr':
         # exercise the threshold switch itself: a threshold near the total number of pixels addressed
